@@ -9,7 +9,7 @@ def units(tier):
     scripts = sorted(F.SCRIPTS) + F.random_names(tier) + F.random_bridge_names(tier)
     return [Unit(F.Mastered, {'script': s}) for s in scripts] + [Unit(F.Reopened, {'script': s, 'edit': False}) for s in scripts] + \
         [Unit(D.RecalcStep), Unit(D.WriterStep), Unit(P.CopyDataYield), Unit(P.InodeOpen, {'location': 1}), Unit(P.InodeOpen, {'location': 2}),
-         Unit(P.InodeOpen, {'location': 2, 'managed': True}), Unit(D.RecalcWhole, {'n': 3, 'index': 1})] + \
+         Unit(P.InodeOpen, {'location': 2, 'managed': True}), Unit(D.RecalcWhole, {'n': 3, 'index': 1}), Unit(D.RRChildRemove, {'n': 3, 'index': 1})] + \
         [Unit(D.DRRoundTrip, {'len_fi': n, 'xa': False}) for n in (1, 8, 13)]
 
 
